@@ -296,8 +296,16 @@ def run(rep):
     rep.bounds = dict(instances=len(insts), api=["run", "reset", "step", "step(override)"], vmap="excluded by the property")
     rep.stubs = []
     rep.assumptions = ["0 <= graph_state.step <= max_step", "user step function = arbitrary deterministic function (UF of its arguments)",
-                       "effects are counted at jaxpr level: one occurrence under guard G executes iff G (lax.cond semantics, un-vmapped)"]
+                       "effects are counted at jaxpr level: one occurrence under guard G executes iff G (lax.cond semantics, un-vmapped)",
+                       "graph -> timings link (every needed tick of the raw graph has exactly one run=True cell) is decided on an enumerated instance family only (to_timings is numpy code around an external monomorphism)"]
     obs = pmap("props.c06", "worker_compiled", insts, rep.tier)
+    # worker_compiled takes the ticks to execute from the compiled timings (run masks); that the timings contain every tick of the computation graph inside
+    # the horizon is decided against the raw graph (ancestors of the supervisor's steps) on the instance family, ragged stacks included
+    from rex import utils
+    rep.encode(utils.to_timings)
+    cov = insts + [dict(kind="two", rate1=10, rate2=20, window12=2, window21=1, ragged=[0.5, 0.3], mode="mcs"), dict(kind="three", rates=(10, 20, 15), windows=(2, 1, 2), ts_max=0.3, mode="generational"),
+                   dict(kind="fanout", mode="mcs", ts_max=0.5, windows=[4, 1])] + cg.random_instances(rep.tier, quick_n=2)
+    obs += pmap("props.c07", "worker_coverage", cov, rep.tier)
     import rex.asynchronous as A
     rep.encode(A._AsyncNodeWrapper._async_step, A._AsyncNodeWrapper.async_step, A._AsyncNodeWrapper.push_step, A._Synchronizer._async_step, A.AsyncGraph.run_supervisor)
     acfg = async_configs(rep.tier)
